@@ -210,3 +210,18 @@ def rule_regex_ambiguity(run, prog):
                f"on the same text, e.g. through states {w[1] if w else '-'} / {w[2] if w else '-'}): on a subject where the overall match "
                f"fails, one re call tries 2^n groupings -- a hang without a Python-level loop", node, states=nfa.n)
     run.require(n >= 4, f"only {n} regular expressions analysed (floor 4)")
+
+
+def ambiguous_lexer_pattern(prog) -> Optional[str]:
+    """Name of a regular expression of lexer/lexer.py that is exponentially ambiguous (R-5.10 reports it under C05), or None.
+    Rules that feed long inputs through the tree's own patterns ask first: the analyser's interpreter runs those patterns with
+    Python's re, and would hang with them."""
+    for rel, name, pat, flags, node in patterns_of(prog):
+        if rel != "lexer/lexer.py":
+            continue
+        try:
+            if eda_witness(nfa_of(pat, flags)) is not None:
+                return name
+        except (UnsupportedRegex, re.error, RecursionError):
+            continue
+    return None
